@@ -1,3 +1,11 @@
 // [A-std] core::mem::replace stores `src` and returns the previous value
 pub assume_specification<T>[ core::mem::replace::<T> ](dest: &mut T, src: T) -> (r: T)
     ensures *final(dest) == src, r == *old(dest);
+
+// [A-std] N9: `v.extend(w)` for a Vec `w` is emitted as `verif_vec_extend(&mut v, w)`: appends w's elements in order. The body IS the original call.
+#[verifier::external_body]
+fn verif_vec_extend<T>(v: &mut Vec<T>, other: Vec<T>)
+    ensures final(v)@ == old(v)@ + other@, other@ == final(v)@.skip(old(v)@.len() as int),
+{
+    v.extend(other)
+}
